@@ -137,6 +137,36 @@ pub fn run(rep: &mut Report, tier: &str, seed: u64) -> Result<(), String> {
             }
         }
     }
+    // 4. a DOCTYPE with an internal subset: the entities it declares are part of the document, and real SVG -
+    //    whose DOCTYPE is passed through - may use them in character data and in attribute values
+    let mut ent = Stream::new(
+        "oracle/doctype-entities",
+        "oracle",
+        "real SVG documents whose DOCTYPE declares one or two internal entities (Illustrator style) and uses them in character data and attribute values, next to predefined and character references, under random configurations: the transform succeeds and the output is the input byte for byte (or has the same infoset, entities expanded by the independent parser)",
+    );
+    for _ in 0..n / 4 {
+        let (e1, v1) = *rng.pick(&[("brand", "svgdx &amp; co"), ("ns_x", "urn:example:x"), ("Gr\u{fc}n", "#0f0"), ("a.b-c", "1 2")]);
+        let two = rng.chance(1, 2);
+        let mut subset = format!("<!ENTITY {e1} \"{v1}\">");
+        if two { subset.push_str(*rng.pick(&["\n  <!ENTITY copy \"&#169;\">", "<!ENTITY copy '&#xA9; 2024'>"])); }
+        let body_text = format!("{} &{e1}; {}{}", rng.pick(&["made by", "&lt;", "x"]), rng.pick(&["&amp;", "&#65;", ""]), if two { " &copy;" } else { "" });
+        let attr = if rng.chance(1, 2) { format!(" data-b=\"&{e1};\"") } else { String::new() };
+        let pre = if rng.chance(1, 2) { "<?xml version=\"1.0\"?>\n" } else { "" };
+        let doc = format!("{pre}<!DOCTYPE svg [{subset}]>\n<svg xmlns=\"http://www.w3.org/2000/svg\" viewBox=\"0 0 10 10\"><desc{attr}>{body_text}</desc><rect width=\"2\" height=\"2\"{attr}/></svg>");
+        let Ok(in_info) = ex.parse(doc.as_bytes()) else { ent.skipped += 1; continue };
+        let cfg = random_cfg(&mut rng);
+        ent.case(&doc, true, || json!({"document": short(&doc), "config": cfg_desc(&cfg)}));
+        match transform(&doc, &cfg) {
+            Err(p) => rep.violation(Violation { kind: "oracle", stream: ent.name.clone(), signature: "C03:panic".into(), what: format!("panic: {p}"), replay: json!({"input": doc, "config": cfg_desc(&cfg)}), confirmed_on_impl: true }),
+            Ok(Err(e)) => rep.violation(Violation { kind: "oracle", stream: ent.name.clone(), signature: format!("C03:error:{}", err_kind(&e)), what: format!("real SVG using the entities its DOCTYPE declares is rejected: {e}"), replay: json!({"input": doc, "config": cfg_desc(&cfg)}), confirmed_on_impl: true }),
+            Ok(Ok(out)) if out == doc => ent.exact += 1,
+            Ok(Ok(out)) => match ex.parse(out.as_bytes()) {
+                Ok(oi) if oi.get("infoset") == in_info.get("infoset") => ent.tolerance += 1,
+                _ => rep.violation(Violation { kind: "oracle", stream: ent.name.clone(), signature: "C03:infoset:doctype".into(), what: "a real SVG document with DOCTYPE-declared entities does not come out with the same infoset".into(), replay: json!({"input": doc, "config": cfg_desc(&cfg), "output": short(&out)}), confirmed_on_impl: true }),
+            },
+        }
+    }
+    rep.streams.push(ent);
     rep.streams.push(tok);
     rep.streams.push(pass);
     rep.streams.push(wr);
